@@ -234,7 +234,10 @@ prop("C01", level="exploration",
 
 prop("C09", level="exploration",
      stages=[dict(pkg="fullstack", test="TestC09", sub="thirdparty", race=True, vary_gomaxprocs=True,
-                  cases=dict(quick=500, thorough=6000), timeout=3600)],
+                  cases=dict(quick=500, thorough=6000), timeout=3600),
+             # a caller-chosen request id re-used for another peer after a paused request was cancelled
+             dict(pkg="fullstack", test="TestC09Reuse", sub="idreuse", race=True, vary_gomaxprocs=True,
+                  cases=dict(quick=100, thorough=1500), timeout=3600)],
      technique="runtime monitoring: hook-invocation monitor and outgoing wire-log monitor on the requestor plus differential outcome check (reference model 1) while a scripted third peer injects responses carrying the victim request id at chosen delivery positions; Go race detector",
      level_text=("An honest exchange (real requestor, real responder holding the whole DAG) runs while a raw third peer injects responses with the victim's "
                  "request id - every status code, honest-looking and garbage metadata, true and foreign blocks, extensions that make a realistic "
